@@ -50,3 +50,18 @@ func VerifSetHooks(point func(what string), answer func(pool uintptr, n int) int
 
 // VerifRealSync reports whether the library is built against the real package sync.
 func VerifRealSync() bool { return false }
+
+// VerifPoolHash summarises the global pool state (free-list lengths, pool flag) without allocating.
+func VerifPoolHash() uint64 {
+	h := uint64(14695981039346656037)
+	for i := range intsPool {
+		h = (h ^ uint64(intsPool[i].Len())) * 1099511628211
+	}
+	h = (h ^ uint64(len(densePool))) * 1099511628211
+	h = (h ^ uint64(len(boolsPool))) * 1099511628211
+	h = (h ^ uint64(len(headerPool))) * 1099511628211
+	if usePool {
+		h ^= 1
+	}
+	return h
+}
